@@ -24,6 +24,7 @@ import (
 
 	"github.com/safing/portbase/api"
 	"github.com/safing/portbase/database"
+	"github.com/safing/portbase/database/record"
 	_ "github.com/safing/portbase/database/dbmodule"
 	_ "github.com/safing/portbase/database/storage/badger"
 	_ "github.com/safing/portbase/database/storage/bbolt"
@@ -169,6 +170,54 @@ type conn struct {
 	replies    []reply
 	sent       int
 	sendYields int
+
+	actions []*sendAction // writes to perform inside send
+	okCount map[string]int
+	fired   []firedWrite
+}
+
+type sendAction struct {
+	inSend
+	done bool
+}
+
+// firedWrite is an in-send write that was executed.
+type firedWrite struct {
+	inSend
+	atReply int // index (in conn.replies) of the reply that triggered it
+	err     error
+}
+
+// apiLikeDB has the permissions the database API has.
+var apiLikeDB = database.NewInterface(nil)
+
+func performWrite(a inSend) error {
+	switch a.Kind {
+	case kDelete:
+		return apiLikeDB.Delete(a.Key)
+	case kCreate, kUpdate:
+		if len(a.Payload) < 2 {
+			return fmt.Errorf("harness: short payload")
+		}
+		w, err := record.NewWrapper(a.Key, nil, a.Payload[0], a.Payload[1:])
+		if err != nil {
+			return err
+		}
+		if a.Kind == kCreate {
+			return apiLikeDB.PutNew(w)
+		}
+		return apiLikeDB.Put(w)
+	}
+	return fmt.Errorf("harness: unknown in-send write %q", a.Kind)
+}
+
+// takeFired returns and forgets the in-send writes executed so far.
+func (c *conn) takeFired() []firedWrite {
+	c.mu.Lock()
+	defer c.mu.Unlock()
+	f := c.fired
+	c.fired = nil
+	return f
 }
 
 func newConn() *conn {
@@ -195,7 +244,36 @@ func (c *conn) send(data []byte) {
 	c.mu.Lock()
 	r.sentMsgs = c.sent
 	c.replies = append(c.replies, r)
+	at := len(c.replies) - 1
+	var due []*sendAction
+	if len(c.actions) > 0 {
+		if r.typ == "ok" {
+			if c.okCount == nil {
+				c.okCount = map[string]int{}
+			}
+			c.okCount[r.opID]++
+		}
+		for _, a := range c.actions {
+			if a.done || a.Op != r.opID {
+				continue
+			}
+			switch {
+			case a.Trigger == "done" && r.typ == "done",
+				a.Trigger == "ok" && r.typ == "ok" && c.okCount[r.opID] == a.N,
+				a.Trigger == "note" && (r.typ == "upd" || r.typ == "new"):
+				a.done = true
+				due = append(due, a)
+			}
+		}
+	}
 	c.mu.Unlock()
+	// the consumer acts before it returns: a write through an interface with the API's permissions
+	for _, a := range due {
+		err := performWrite(a.inSend)
+		c.mu.Lock()
+		c.fired = append(c.fired, firedWrite{inSend: a.inSend, atReply: at, err: err})
+		c.mu.Unlock()
+	}
 }
 
 func (c *conn) handle(msg []byte) {
